@@ -66,6 +66,15 @@ C = {
          "graph shifts with the array; input untouched",
          "Bound: <=3 nodes (ids 0..4, seg ids 1..3, all assignments), 2x3 / 3x3 cells. Known finding F05 (identity "
          "shortcut) is reported as KNOWN-FINDING."),
+ "C14": ("real export_to_geff / export_to_csv up to the writer boundary composed with the real import_from_geff / "
+         "tracks_from_df from the reader boundary on (real geff structural and tracklet/lineage validators, real "
+         "geff.construct, real constructor with detection of existing ids) through an IDEAL store: re-imported nodes, "
+         "edges, times, positions and track ids equal the original ones for every valid solution within the bound and "
+         "arbitrary real coordinates",
+         "The store contract 'what was written is what is read' (geff.write/read_to_memory; to_csv/read_csv with empty "
+         "field = missing) is ASSUMED: what zarr / geff / pandas do with the values is outside the claim (replays go "
+         "through the real files). Not claimed: the internal save format, segmentation round trips, display-name CSV "
+         "headers, subset exports. Bound: 3 / 4 node slots, single-key and per-axis position storage, 2D and 3D."),
  "C15": ("real filter_graph_with_ancestors + export_to_geff / export_to_csv up to the I/O boundary: exported node set = "
          "selection + ancestors, every edge among them, no missing parent, exported array cell = label if kept else 0",
          "Hole: what pandas/geff/zarr do with the captured values (counterexamples are replayed end to end through the "
@@ -100,9 +109,7 @@ for pid, (text, note) in C.items():
                                 "every feasible path within the stated bound; solver counterexamples replayed on the "
                                 "unmodified stack. Claim: " + text),
         level_note=BASE_NOTE + note, technique=TECH))
-na = [dict(property_id="C14", reason="composition of two file formats through pandas CSV text, zarr/geff stores and "
-           "json/np.save: the property IS the behaviour of those libraries' writers and readers paired with each other; "
-           "the pure-Python fragments would not decide it (DESIGN 6)")]
+na = []
 m = dict(version=1, setup_cmd="./bootstrap.sh && ./check selftest",
          hooks=dict(guard="FUNTRACKS_VERIF", enable="no source hooks: all instrumentation is runtime namespace "
                     "injection / AST pass performed by the harness on the current /repo/src", add_only=True,
@@ -113,6 +120,7 @@ m = dict(version=1, setup_cmd="./bootstrap.sh && ./check selftest",
                                       "proxies and symbolic models of networkx / numpy / dict bookkeeping")],
          checks=checks, not_applicable=na,
          notes="See DESIGN.md. Genuine defects found by the checks were repaired in /repo ('fix:' commits) and are listed in "
-               "known_findings.json as fixed; one open finding (F05, C13) is reported as KNOWN-FINDING.")
+               "known_findings.json as fixed; one open finding (F05, C13) is reported as KNOWN-FINDING. C12 and C14 are claimed for funtracks' own import / export logic "
+               "with the file readers / writers as stated I/O stubs (DESIGN 4, C12 and C14).")
 json.dump(m, open("/verif/MANIFEST.json", "w"), indent=1)
 print("claimed", len(checks), "not applicable", [d["property_id"] for d in na])
